@@ -282,7 +282,7 @@ func (cc *cacheController) flush() {
 	}
 	for k, sem := range cc.lockSems {
 		sem.Unlock()
-		delete(cc.rlockSems, k)
+		delete(cc.lockSems, k)
 	}
 }
 
